@@ -76,15 +76,17 @@ def place(scope: str, stmt: List[str]) -> Tuple[List[str], List[str]]:
     raise KeyError(scope)
 
 
-def build(assigns: Sequence[Tuple[str, str]], tagname: str) -> dict:
-    """assigns: [(source name, scope)], executed in order on the same variable v."""
+def build(assigns: Sequence[Tuple[str, str]], tagname: str, forms: Optional[Sequence[str]] = None) -> dict:
+    """assigns: [(source name, scope)], executed in order on the same variable v.
+    forms[k] = "plain" (v = e) or "tuple" (v, side_k = e, k)."""
     setup: List[str] = list(HEAD)
     loop: List[str] = []
     final_cls = SOURCES[assigns[-1][0]][1]
     in_loop = False
     for k, (src, scope) in enumerate(assigns):
         expr, cls = SOURCES[src]
-        s_lines, l_lines = place(scope, [f"v = {expr}"])
+        stmt = f"v = {expr}" if not forms or forms[k] == "plain" else f"v, side{k} = {expr}, {k}"
+        s_lines, l_lines = place(scope, [stmt])
         if l_lines:
             in_loop = True
         if in_loop and s_lines:
@@ -133,6 +135,30 @@ def gen_pairs(tier: str) -> Iterator[dict]:
                 case = build([(s1, sc1), (s2, sc2)], "p")
                 case.update(id=f"A2:{s1}@{sc1}>{s2}@{sc2}", space="A")
                 yield case
+
+
+def gen_tuple_forms(tier: str) -> Iterator[dict]:
+    """The same ordered pairs / triples with one or more of the assignments written as a tuple assignment."""
+    reps = {"int": ["int_lit", "int_expr"], "float": ["float_lit", "float_expr"], "bool": ["bool_expr"], "str": ["str_expr"]}
+    scopes = ["top", "if", "loop"]
+    for c1, c2 in itertools.product(reps, repeat=2):
+        if not can_hold(c1, c2):
+            continue
+        for s1, s2 in itertools.product(reps[c1], reps[c2]):
+            for sc1, sc2 in itertools.product(scopes, repeat=2):
+                if sc1.startswith("loop") and not sc2.startswith("loop"):
+                    continue
+                for forms in (("tuple", "plain"), ("plain", "tuple"), ("tuple", "tuple")):
+                    case = build([(s1, sc1), (s2, sc2)], "q", forms)
+                    case.update(id=f"A2t:{s1}@{sc1}>{s2}@{sc2}:{'+'.join(forms)}", space="A")
+                    yield case
+    for c1, c2, c3 in itertools.product(reps, repeat=3):
+        if not (can_hold(c1, c2) and can_hold(c1, c3)) or (c1 == c2 == c3):
+            continue
+        for forms in (("plain", "tuple", "plain"), ("plain", "tuple", "tuple")):
+            case = build([(reps[c1][0], "top"), (reps[c2][0], "top"), (reps[c3][0], "top")], "r", forms)
+            case.update(id=f"A3t:{c1}>{c2}>{c3}:{'+'.join(forms)}", space="A")
+            yield case
 
 
 def gen_triples(tier: str) -> Iterator[dict]:
@@ -292,6 +318,7 @@ def generate(tier: str, only=None) -> Iterator[dict]:
         yield from gen_single(tier)
         yield from gen_pairs(tier)
         yield from gen_triples(tier)
+        yield from gen_tuple_forms(tier)
     if not only or "P" in only:
         yield from gen_params(tier)
     if not only or "R" in only:
